@@ -1,13 +1,15 @@
 """C03 A Deferred delivers one result; cancellation follows its protocol.
 
-A *history* is a tuple of op codes applied to one real outer Deferred `d` (canceller kind `ck`) and
-one real inner Deferred `inner` (canceller kind `ik`):
+A *history* is a tuple of op codes applied to a chain of real Deferreds: the outer `d` (canceller
+kind `ck`), `inner` (kind `ik`) and, in harness `chain3`, a second-level `inner2` (kind `ik2`):
   0 d.callback(v+i)   1 d.errback(Boom(i))   2 d.cancel()
-  3 d.addCallback(lambda _: inner); d.addBoth(probe_i)      4 inner.callback(v+100+i)
+  3 d.addCallback(lambda _: inner); d.addBoth(probe)        4 inner.callback(v+100+i)
+  5 inner.addCallback(lambda _: inner2); inner.addBoth(probe)   6 inner2.callback(v+200+i)   (chain3 only)
 canceller kinds: 0 none, 1 does nothing, 2 fires callback(77), 3 fires errback(Boom(300)), 4 raises.
-The oracle `_M` is an explicit small-state model (fired?, swallow-one-late-result?, waiting-on-inner?,
-canceller call counts, pending callbacks) that predicts for every step whether the call raises
-AlreadyCalledError (or lets the canceller's exception through) and everything observable afterwards.
+The oracle `_M` is an explicit small-state model per level (fired?, swallow-one-late-result?,
+waiting-on-next-level?, canceller call count, pending callbacks) that predicts for every step whether
+the call raises AlreadyCalledError (or lets a canceller's exception through) and everything observable
+afterwards; cancel() on a fired Deferred goes down the whole chain of Deferreds waiting for each other.
 """
 from typing import Tuple
 
@@ -21,14 +23,18 @@ LEVEL = "model_checking"
 ENCODED = ["twisted.internet.defer:Deferred.cancel", "twisted.internet.defer:Deferred._startRunCallbacks",
            "twisted.internet.defer:Deferred.callback", "twisted.internet.defer:Deferred.errback",
            "twisted.internet.defer:Deferred._runCallbacks"]
-BOUNDS = {"quick": {"n": 5, "n0": 5}, "thorough": {"n": 6, "n0": 7}}
+BOUNDS = {"quick": {"n": 5, "n0": 5, "k": 3}, "thorough": {"n": 6, "n0": 7, "k": 5}}
 B = {}
 BOUNDS_TEXT = ("every history of <= n ops (<= n0 ops for the outer Deferred without canceller, thorough tier) over {callback, errback, cancel, add callback returning the unfired-or-"
                "fired inner Deferred (+ probe), fire inner}, outer canceller kind in {none, no-op, fires callback, "
-               "fires errback, raises}, inner canceller kind likewise, fired values v+i for every int v; model "
-               "and real state are compared after every op, so shorter histories are covered as prefixes")
+               "fires errback, raises}, inner canceller kind likewise, fired values v+i for every int v; chain3: "
+               "three levels (d -> inner -> inner2), 3 prefixes (both returning callbacks added / d already "
+               "waiting / d waits for inner waits for inner2) followed by every k ops of all 7, inner and "
+               "inner2 canceller kinds free, d's canceller the no-op one; model and real state are compared "
+               "after every op, so shorter histories are covered as prefixes")
 OUTSIDE = ["histories longer than n (the property's own bound is 8)",
-           "more than one inner Deferred; inner Deferreds that themselves wait for a third one",
+           "chains deeper than three levels; more than one Deferred per level; three-level histories that do not "
+           "start with one of the three prefixes",
            "cancellers that re-enter cancel(), add callbacks or fire a different Deferred",
            "Deferred.debug mode (AlreadyCalledError text), DeferredList / inlineCallbacks cancellation (C04, C05)"]
 ASSUMPTIONS = ["the explicit state model _M is the specification of the documented one-result / cancellation rules",
@@ -60,6 +66,9 @@ CANC = ("F", -1)            # Failure(CancelledError)
 NONE = ("N", 0)
 
 
+NL = 3                      # outer d = level 0, inner = level 1, inner2 = level 2
+
+
 class _Side:
     """model of one Deferred as far as this property needs it"""
 
@@ -69,21 +78,24 @@ class _Side:
         self.ncanc = 0              # canceller calls
         self.res = None
         self.kind = None            # canceller kind, None until known
+        self.waiting = False        # fired and waiting for the Deferred one level down
+        self.cbs = []               # pending: ('P', id) probe, ('R', id) returns the next level, ('C',)
+                                    # continuation: hand my result to the level above, which waits for me
 
 
 class _M:
-    def __init__(self, ck, ikf):
-        self.o = _Side()
-        self.o.kind = ck
-        self.i = _Side()
-        self.ikf = ikf              # decodes the inner canceller kind when it is first needed
-        self.waiting = False        # outer waits for inner (inner holds the continuation)
-        self.cbs = [("P", -1)]      # outer's pending callbacks: ('P', id) probe, ('R', id) returns inner
+    """explicit state model of a chain d -> inner -> inner2 (each level may wait for the next one)"""
+
+    def __init__(self, kindf):
+        self.s = [_Side() for _ in range(NL)]
+        self.s[0].cbs.append(("P", -1))
+        self.kindf = kindf          # decodes a canceller kind when it is first needed
         self.trace = []
 
     # -- firing ---------------------------------------------------------------------------------
-    def fire(self, s, res):
-        """callback()/errback() on side s: 'ACE' if it must raise AlreadyCalledError"""
+    def fire(self, j, res):
+        """callback()/errback() on level j: 'ACE' if it must raise AlreadyCalledError"""
+        s = self.s[j]
         if s.called:
             if s.suppress:
                 s.suppress = False
@@ -91,77 +103,87 @@ class _M:
             return "ACE"
         s.called = True
         s.res = res
-        if s is self.o:
-            self.run_outer()
-        elif self.waiting:
-            # hand the result to the waiting outer Deferred, which resumes
-            self.o.res = s.res
-            s.res = NONE
-            self.waiting = False
-            self.run_outer()
+        self.run(j)
         return None
 
-    def run_outer(self):
-        o = self.o
-        while self.cbs and not self.waiting:
-            e = self.cbs.pop(0)
-            if e[0] == "P":
-                self.trace.append((e[1], o.res))
-            elif o.res[0] != "F":
-                self.trace.append((e[1], o.res))
-                if self.i.called:
-                    o.res = self.i.res
-                    self.i.res = NONE
+    def add(self, j, rid, pid):
+        s = self.s[j]
+        s.cbs.append(("R", rid))
+        s.cbs.append(("P", pid))
+        if s.called:
+            self.run(j)
+
+    def run(self, j):
+        s = self.s[j]
+        while s.cbs and not s.waiting:
+            e = s.cbs.pop(0)
+            if e[0] == "C":
+                # the level above returned me from a callback: it takes my result and resumes
+                up = self.s[j - 1]
+                up.res = s.res
+                s.res = NONE
+                up.waiting = False
+                self.run(j - 1)
+            elif e[0] == "P":
+                self.trace.append((e[1], s.res))
+            elif s.res[0] != "F":
+                self.trace.append((e[1], s.res))
+                nxt = self.s[j + 1]
+                if nxt.called and not nxt.waiting:
+                    s.res = nxt.res
+                    nxt.res = NONE
                 else:
-                    o.res = ("D", 0)
-                    self.waiting = True
+                    s.res = ("D", j + 1)
+                    s.waiting = True
+                    nxt.cbs.append(("C",))
 
     # -- cancelling -----------------------------------------------------------------------------
-    def cancel(self, s):
-        """cancel() on side s: None, or 'CERR' when the canceller's exception comes through"""
+    def cancel(self, j):
+        """cancel() on level j: None, or 'CERR' when a canceller's exception comes through"""
+        s = self.s[j]
         if not s.called:
             if s.kind is None:
-                s.kind = self.ikf()
+                s.kind = self.kindf(j)
             if s.kind == 0:
                 s.suppress = True
             else:
                 s.ncanc += 1
                 if s.kind == 2:
-                    self.fire(s, ("I", 77))
+                    self.fire(j, ("I", 77))
                 elif s.kind == 3:
-                    self.fire(s, ("F", 300))
+                    self.fire(j, ("F", 300))
                 elif s.kind == 4:
                     return "CERR"
             if not s.called:
-                self.fire(s, CANC)
+                self.fire(j, CANC)
             return None
-        if s is self.o and self.waiting:
-            return self.cancel(self.i)
+        if s.waiting:
+            # fired and waiting for the next level: the cancellation goes down the whole chain
+            return self.cancel(j + 1)
         return None
 
 
 class _World:
-    def __init__(self, v, ck, ik):
+    def __init__(self, v, kinds):
         self.v = v
-        self.ik = ik
-        self.ikc = None
-        self.ncanc = [0, 0]
+        self.kinds = list(kinds)            # canceller kind codes of the three levels (symbolic or concrete)
+        self.kc = [None] * NL               # decoded kinds
+        self.ncanc = [0] * NL
         self.trace = []
         self.checked = 0
-        self.d = Deferred(self.canceller(0, lambda: ck) if ck else None)
-        self.d.addBoth(self.probe(-1))
-        self.inner = None
-        self.m = _M(ck, self.ikf)
+        self.ds = [None] * NL               # built when first used
+        self.m = _M(self.kindf)
+        self.get(0).addBoth(self.probe(-1))
 
-    def ikf(self):
-        if self.ikc is None:
-            self.ikc = _c(self.ik, 0, 5)
-        return self.ikc
+    def kindf(self, j):
+        if self.kc[j] is None:
+            self.kc[j] = _c(self.kinds[j], 0, 5)
+        return self.kc[j]
 
-    def canceller(self, which, kindf):
+    def canceller(self, j):
         def canc(d):
-            self.ncanc[which] += 1
-            k = kindf()
+            self.ncanc[j] += 1
+            k = self.kindf(j)
             if k == 2:
                 d.callback(77)
             elif k == 3:
@@ -170,15 +192,15 @@ class _World:
                 raise _CErr()
         return canc
 
-    def get_inner(self):
-        # the inner Deferred is built when first used; only then 'has a canceller at all?' is decided,
-        # and which canceller it is only when that canceller is called
-        if self.inner is None:
-            has = not (self.ik <= 0) if self.ikc is None else self.ikc != 0
+    def get(self, j):
+        # a Deferred is built when first used; only then 'has a canceller at all?' is decided, and
+        # which canceller it is only when that canceller is called
+        if self.ds[j] is None:
+            has = not (self.kinds[j] <= 0) if self.kc[j] is None else self.kc[j] != 0
             if not has:
-                self.ikc = 0
-            self.inner = Deferred(self.canceller(1, self.ikf) if has else None)
-        return self.inner
+                self.kc[j] = 0
+            self.ds[j] = Deferred(self.canceller(j) if has else None)
+        return self.ds[j]
 
     def abs(self, x):
         if isinstance(x, Failure):
@@ -188,7 +210,10 @@ class _World:
         if x is None:
             return NONE
         if isinstance(x, Deferred):
-            return ("D", 0 if x is self.inner else -1)
+            for j in range(NL):
+                if x is self.ds[j]:
+                    return ("D", j)
+            return ("D", -1)
         return ("I", x)
 
     def probe(self, k):
@@ -197,44 +222,48 @@ class _World:
             return arg
         return p
 
-    def ret_inner(self, k):
+    def ret_next(self, k, j):
         def r(arg):
             self.trace.append((k, self.abs(arg)))
-            return self.get_inner()
+            return self.get(j + 1)
         return r
 
     def step(self, i, op):
         m = self.m
-        d = self.d
         # ---- model
         if op == 0:
-            exp = m.fire(m.o, ("I", self.v + i))
+            exp = m.fire(0, ("I", self.v + i))
         elif op == 1:
-            exp = m.fire(m.o, ("F", i))
+            exp = m.fire(0, ("F", i))
         elif op == 2:
-            exp = m.cancel(m.o)
+            exp = m.cancel(0)
         elif op == 3:
-            m.cbs.append(("R", i))
-            m.cbs.append(("P", 100 + i))
-            if m.o.called:
-                m.run_outer()
-            exp = None
+            exp = m.add(0, i, 100 + i)
+        elif op == 4:
+            exp = m.fire(1, ("I", self.v + 100 + i))
+        elif op == 5:
+            exp = m.add(1, 200 + i, 300 + i)
         else:
-            exp = m.fire(m.i, ("I", self.v + 100 + i))
+            exp = m.fire(2, ("I", self.v + 200 + i))
         # ---- real
         got = None
         try:
             if op == 0:
-                d.callback(self.v + i)
+                self.get(0).callback(self.v + i)
             elif op == 1:
-                d.errback(_Boom(i))
+                self.get(0).errback(_Boom(i))
             elif op == 2:
-                d.cancel()
+                self.get(0).cancel()
             elif op == 3:
-                d.addCallback(self.ret_inner(i))
-                d.addBoth(self.probe(100 + i))
+                self.get(0).addCallback(self.ret_next(i, 0))
+                self.get(0).addBoth(self.probe(100 + i))
+            elif op == 4:
+                self.get(1).callback(self.v + 100 + i)
+            elif op == 5:
+                self.get(1).addCallback(self.ret_next(200 + i, 1))
+                self.get(1).addBoth(self.probe(300 + i))
             else:
-                self.get_inner().callback(self.v + 100 + i)
+                self.get(2).callback(self.v + 200 + i)
         except AlreadyCalledError:
             got = "ACE"
         except _CErr:
@@ -242,19 +271,6 @@ class _World:
         if got != exp:
             return False
         return self.same()
-
-    def same_side(self, d, s, final):
-        if d.called != s.called or d._suppressAlreadyCalled != s.suppress:
-            return False
-        if d.called:
-            a = self.abs(d.result)
-            if a[0] != s.res[0]:
-                return False
-            if (final or a[0] != "I") and a[1] != s.res[1]:
-                return False
-        elif hasattr(d, "result"):
-            return False
-        return True
 
     def same(self, final=False):
         m = self.m
@@ -274,25 +290,32 @@ class _World:
             if x[0] in ids:
                 return False
             ids.append(x[0])
-        if n0 != (1 if self.d.called else 0):
+        if n0 != (1 if self.ds[0].called else 0):
             return False
-        if not self.same_side(self.d, m.o, final):
-            return False
-        if self.d.paused != (1 if m.waiting else 0) or len(self.d.callbacks) != len(m.cbs):
-            return False
-        if self.ncanc[0] != m.o.ncanc or self.ncanc[1] != m.i.ncanc:
-            return False
-        if self.inner is not None:
-            if not self.same_side(self.inner, m.i, final):
+        for j in range(NL):
+            d, s = self.ds[j], m.s[j]
+            if self.ncanc[j] != s.ncanc:
                 return False
-            if len(self.inner.callbacks) != (1 if m.waiting else 0) or self.inner.paused:
+            if d is None:
+                if s.called or s.cbs:
+                    return False
+                continue
+            if d.called != s.called or d._suppressAlreadyCalled != s.suppress:
                 return False
-        elif m.i.called:
-            return False
+            if d.paused != (1 if s.waiting else 0) or len(d.callbacks) != len(s.cbs):
+                return False
+            if d.called:
+                a = self.abs(d.result)
+                if a[0] != s.res[0]:
+                    return False
+                if (final or a[0] != "I") and a[1] != s.res[1]:
+                    return False
+            elif hasattr(d, "result"):
+                return False
         return True
 
     def finish(self):
-        for d in (self.d, self.inner):
+        for d in self.ds:
             if d is not None:
                 d.callbacks[:] = []
                 d.addErrback(lambda f: None)
@@ -303,11 +326,12 @@ class _World:
 T8 = Tuple[int, int, int, int, int, int, int, int]
 
 
-def _hist(n, ck, ik, v, ops):
-    w = _World(v, ck, ik)
+def _hist(n, kinds, v, ops, nops=5, prefix=()):
+    """prefix: concrete ops run first; then n symbolic ops (code clamped to range(nops))"""
+    w = _World(v, kinds)
     try:
-        for i in range(n):
-            op = _c(ops[i], 0, 5)
+        for i in range(len(prefix) + n):
+            op = prefix[i] if i < len(prefix) else _c(ops[i - len(prefix)], 0, nops)
             if not w.step(i, op):
                 return False
         cover()
@@ -321,7 +345,7 @@ def history(ck: int, ik: int, v: int, ops: T8) -> bool:
     pre: 0 <= ck <= 4
     post: _
     """
-    return _hist(B['n'], _c(ck, 0, 5), ik, v, ops)
+    return _hist(B['n'], (_c(ck, 0, 5), ik, 0), v, ops)
 
 
 def history_nocanc(ik: int, v: int, ops: T8) -> bool:
@@ -330,20 +354,34 @@ def history_nocanc(ik: int, v: int, ops: T8) -> bool:
     post: _
     """
     # longer histories for the canceller-less outer Deferred (the 'swallow one late result' rule)
-    return _hist(B['n0'], 0, ik, v, ops)
+    return _hist(B['n0'], (0, ik, 0), v, ops)
 
 
-def _bucket(k, c):
+# three levels: d's callback returns inner, inner's callback returns inner2.  Prefixes (both callbacks
+# are in place / d already waits for inner when inner gets its callback), then every k ops of all 7.
+PRE3 = [(3, 5), (3, 0, 5), (3, 5, 0, 4)]     # the last one: d waits for inner waits for inner2
+
+
+def chain3(sc: int, ik: int, ik2: int, v: int, ops: T8) -> bool:
+    """
+    pre: 0 <= sc < len(PRE3)
+    post: _
+    """
+    # d's own canceller is the counting no-op one here (all its kinds are covered by `history`)
+    return _hist(B['k'], (1, ik, ik2), v, ops, 7, PRE3[_c(sc, 0, len(PRE3))])
+
+
+def _bucket(k, c, nops=5):
     if c == 0:
         return "ops[%d] < 1" % k
-    if c == 4:
-        return "ops[%d] >= 4" % k
+    if c == nops - 1:
+        return "ops[%d] >= %d" % (k, c)
     return "ops[%d] == %d" % (k, c)
 
 
-def _split(sh, depth):
+def _split(sh, depth, nops=5):
     for k in range(depth):
-        sh = [x + (_bucket(k, c),) for x in sh for c in range(5)]
+        sh = [x + (_bucket(k, c, nops),) for x in sh for c in range(nops)]
     return sh
 
 
@@ -351,6 +389,8 @@ HARNESSES = [
     H(history, shards=lambda tier: _split([("ck == %d" % ck,) for ck in range(5)], 1 if tier == "quick" else 2),
       timeout={"quick": 150, "thorough": 1200}),
     H(history_nocanc, shards=lambda tier: _split([()], 3), tiers=("thorough",), timeout={"thorough": 1200}),
+    H(chain3, shards=lambda tier: _split([("sc == %d" % k,) for k in range(len(PRE3))], 0 if tier == "quick" else 2, 7),
+      timeout={"quick": 150, "thorough": 1200}),
 ]
 
 VECTORS = {"history": [
@@ -362,4 +402,13 @@ VECTORS = {"history": [
     (1, 0, 5, (3, 0, 2, 4, 4, 0, 0, 0)),
     (1, 3, -2, (0, 3, 2, 2, 4, 0, 0, 0)),
     (4, 4, 0, (2, 2, 0, 3, 2, 0, 0, 0)),
+], "chain3": [
+    # d waits for inner, inner (fired) waits for inner2: cancel on d must reach inner2's canceller;
+    # the late result for inner2 (no canceller) is swallowed
+    (0, 1, 0, 5, (0, 4, 2, 6, 0, 0, 0, 0)),
+    (0, 1, 2, 5, (0, 4, 2, 6, 0, 0, 0, 0)),
+    (0, 3, 4, 5, (4, 0, 2, 2, 0, 0, 0, 0)),
+    (1, 0, 1, -1, (4, 6, 2, 3, 0, 0, 0, 0)),
+    (2, 1, 0, 7, (2, 6, 6, 0, 0, 0, 0, 0)),
+    (2, 4, 1, 7, (2, 2, 4, 0, 0, 0, 0, 0)),
 ]}
